@@ -170,7 +170,7 @@ def run_symbolic(spec):
 
         def on_leaf(tr, leaf):
             rec = dict(env=[str(v) for v in leaf.env], kind=leaf.kind, ndec=leaf.ndec)
-            if any(v.denominator > MAXDEN for v in leaf.env[:nexp]):
+            if any(v.denominator > MAXDEN for v in leaf.env[:nexp]) and not getattr(scn, "replay_any_denominator", False):
                 rec["unrepresentable"] = True  # no witness with denominators <= 1e9 found (Point2D caps denominators)
             if leaf.kind == "return":
                 out = leaf.out
@@ -264,6 +264,21 @@ def run_symbolic(spec):
             seed_env=[Fraction(v) for v in scn.seed()] if hasattr(scn, "seed") else None,
             max_decisions=getattr(scn, "max_decisions", 20000), path_timeout=getattr(scn, "path_timeout", 120), max_degree=getattr(scn, "max_degree", 6),
         )
+        # probe inputs: extra concrete inputs run once under the exact-real semantics (constant path, no
+        # exploration); the replay on the plain library is compared with these values
+        for penv in (scn.extra_envs() if hasattr(scn, "extra_envs") else []):
+            penv = [Fraction(v) for v in penv]
+            from symx.core import Sym as _Sym
+
+            tr = core.TR
+            tr.begin(penv)
+            try:
+                out = scn.run([_Sym.var(i, penv[i]) for i in range(len(penv))])
+                res["leaves"].append(dict(env=[str(v) for v in penv], kind="return", ndec=len(tr.decisions), digest=digest(out), probe=True, obl=[]))
+            except core.PathAbort as e:
+                res["leaves"].append(dict(env=[str(v) for v in penv], kind="intractable", ndec=0, why="probe: " + str(e)[:100], probe=True))
+            except Exception as e:  # noqa
+                res["leaves"].append(dict(env=[str(v) for v in penv], kind="raise", ndec=0, digest={"exc": type(e).__name__}, exc=type(e).__name__, probe=True))
         res["stats"] = stats
         res["functions"] = sorted(entered)
         res["names"] = names
